@@ -170,6 +170,7 @@ func runWebUI(env *execenv.Env, opts webUIOptions) error {
 		// default to true
 		configOpen = true
 	} else if err != nil {
+		_ = graphqlHandler.Close()
 		return err
 	}
 
@@ -184,6 +185,8 @@ func runWebUI(env *execenv.Env, opts webUIOptions) error {
 
 	err = srv.ListenAndServe()
 	if err != nil && err != http.ErrServerClosed {
+		// the cache is only closed by the signal handler: do it here, or the lock file stays
+		_ = graphqlHandler.Close()
 		return err
 	}
 
